@@ -52,6 +52,11 @@ def oracle_pair(ctx: Ctx, eng: morph.Engine, rec: morph.LoadRecord):
         if "escape" in (st["r"], lx["r"]) or "no-loader" in (st["r"], lx["r"]):
             continue
         case = {"hint": repr(rec.spec.hint)[:300], "ty": rec.spec.ty, "datum": morph.enc(rec.datum), "mode": m, "origin": rec.origin}
+        import collections.abc
+        if st["r"] == "ok" and (rec.spec.kind.startswith("iter") or rec.spec.kind == "tuple") and \
+                (type(rec.datum) is str or isinstance(rec.datum, collections.abc.Mapping)):
+            ctx.fail("strict-origin:iterable-from-str-or-mapping",
+                     f"strict retort [{m}] loads a {type(rec.datum).__name__} as {repr(rec.spec.hint)[:120]}", case)
         if st["r"] == "ok" and lx["r"] != "ok":
             if morph.has_iter(case["datum"]) and morph.spec_has_union(rec.spec):
                 continue
@@ -88,7 +93,10 @@ def strict_origin_sweep(ctx: Ctx, eng: morph.Engine):
                              {"scalar": name, "datum": repr(d)[:120]})
     # containers and Literal: no str / dict to a list, no bool where an int Literal is required
     from typing import Literal
-    probes = [(list[int], "12"), (list[str], {"a": 1}), (tuple[int, int], "12"), (tuple[str], {"a": 1}), (set[str], "ab"),
+    from typing import Any, List
+    any_iters = [list[Any], List, list, set, frozenset, tuple[Any, ...], list[object], set[Any]]
+    probes = [(h, d) for h in any_iters for d in ("abc", {"a": 1}, "")]
+    probes += [(list[int], "12"), (list[str], {"a": 1}), (tuple[int, int], "12"), (tuple[str], {"a": 1}), (set[str], "ab"),
               (Literal[1], True), (Literal[0], False), (Literal[True], 1), (Literal[1, 2], True), (int, True), (int, "1"),
               (float, "1.5"), (str, 1), (bool, 1)]
     for hint, d in probes:
